@@ -33,18 +33,18 @@ type target struct {
 	// (`=` or `:=`) to the variable Assign. Its free variables / selector chains are listed with their Go types
 	// in Vars (integer fields of a struct receiver are resolved as for whole functions).
 	// Constant targets: a package-level integer constant with a literal value, `const Name [type] = 123`.
-	Const  string            `json:"const"`
-	Type   string            `json:"type"`
-	Cond   *int              `json:"cond"`
-	Assign string            `json:"assign"`
+	Const  string `json:"const"`
+	Type   string `json:"type"`
+	Cond   *int   `json:"cond"`
+	Assign string `json:"assign"`
 	// Call / Arg: the Arg-th argument of the Nth call of a function or method named Call;
 	// Ret: the Res-th result of the Nth `return` statement (set "ret": true).
-	Call string `json:"call"`
-	Arg  int    `json:"arg"`
-	Ret  bool   `json:"ret"`
-	Res  int    `json:"res"`
-	Nth    int               `json:"nth"`
-	Vars   map[string]string `json:"vars"`
+	Call string            `json:"call"`
+	Arg  int               `json:"arg"`
+	Ret  bool              `json:"ret"`
+	Res  int               `json:"res"`
+	Nth  int               `json:"nth"`
+	Vars map[string]string `json:"vars"`
 }
 
 // Go identifiers that are Lean keywords get the suffix `_v`.
@@ -143,9 +143,11 @@ func (t *tr) free(e ast.Expr) (string, string, bool) {
 	return name, lt, true
 }
 
+// fail aborts the translation of the CURRENT target (recovered in main): its definition is left out of the
+// generated file, so only the Tie modules that use it stop compiling - the ties of the other properties, which share
+// the generated file, are not affected by a source change in a function they do not depend on.
 func fail(format string, a ...any) {
-	fmt.Fprintf(os.Stderr, "gen: unsupported: "+format+"\n", a...)
-	os.Exit(2)
+	panic(fmt.Sprintf("unsupported: "+format, a...))
 }
 
 func typeName(e ast.Expr) string {
@@ -513,17 +515,121 @@ func main() {
 	sb.WriteString("def Go.onesCount64 (x : UInt64) : Int64 := Int64.ofNat ((List.range 64).countP fun i => x.toNat.testBit i)\n")
 	sb.WriteString("\n")
 	fset := token.NewFileSet()
+	failed := 0
 	for _, tg := range targets {
-		src, err := os.ReadFile(filepath.Join(repo, tg.File))
-		if err != nil {
-			fail("%v", err)
-		}
-		file, err := parser.ParseFile(fset, tg.File, src, 0)
-		if err != nil {
-			fail("%v", err)
-		}
-		if tg.Const != "" {
-			found := false
+		func() {
+			mark := sb.Len()
+			defer func() {
+				if r := recover(); r != nil {
+					kept := sb.String()[:mark]
+					sb.Reset()
+					sb.WriteString(kept)
+					sb.WriteString(fmt.Sprintf("/- NOT TRANSLATED: `%s` (`%s` `%s`): %v -/\n\n", tg.Lean, tg.File, tg.Func+tg.Const, r))
+					fmt.Fprintf(os.Stderr, "gen: target %s (%s %s): %v\n", tg.Lean, tg.File, tg.Func+tg.Const, r)
+					failed++
+				}
+			}()
+			src, err := os.ReadFile(filepath.Join(repo, tg.File))
+			if err != nil {
+				fail("%v", err)
+			}
+			file, err := parser.ParseFile(fset, tg.File, src, 0)
+			if err != nil {
+				fail("%v", err)
+			}
+			if tg.Const != "" {
+				found := false
+				for _, d := range file.Decls {
+					gd, ok := d.(*ast.GenDecl)
+					if !ok || gd.Tok != token.CONST {
+						continue
+					}
+					for _, sp := range gd.Specs {
+						vs := sp.(*ast.ValueSpec)
+						if len(vs.Names) != 1 || vs.Names[0].Name != tg.Const || len(vs.Values) != 1 {
+							continue
+						}
+						lit, ok := vs.Values[0].(*ast.BasicLit)
+						if !ok || lit.Kind != token.INT {
+							fail("constant %s is not an integer literal", tg.Const)
+						}
+						gt := tg.Type
+						if vs.Type != nil {
+							gt = typeName(vs.Type)
+						}
+						sb.WriteString(fmt.Sprintf("/-- `%s` `const %s` (line %d). -/\n", tg.File, tg.Const, fset.Position(vs.Pos()).Line))
+						sb.WriteString(fmt.Sprintf("def %s : %s := %s\n\n", tg.Lean, leanType(gt), strings.ReplaceAll(lit.Value, "_", "")))
+						found = true
+					}
+				}
+				if !found {
+					fail("constant %s not found in %s", tg.Const, tg.File)
+				}
+				return
+			}
+			var fd *ast.FuncDecl
+			for _, d := range file.Decls {
+				f, ok := d.(*ast.FuncDecl)
+				if !ok || f.Name.Name != tg.Func {
+					continue
+				}
+				recv := ""
+				if f.Recv != nil && len(f.Recv.List) == 1 {
+					recv = strings.TrimPrefix(typeName(f.Recv.List[0].Type), "*")
+				}
+				if recv == tg.Recv {
+					fd = f
+				}
+			}
+			if fd == nil {
+				fail("function %s.%s not found in %s", tg.Recv, tg.Func, tg.File)
+			}
+			t := &tr{env: map[string]string{}, leanOf: leanOf, consts: map[string]string{}, structVars: map[string]string{}, structs: map[string]map[string]string{}}
+			// struct types of the package (all non-test files of the directory): plain named fields only
+			if pkgFiles, err := filepath.Glob(filepath.Join(repo, filepath.Dir(tg.File), "*.go")); err == nil {
+				for _, pf := range pkgFiles {
+					if strings.HasSuffix(pf, "_test.go") {
+						continue
+					}
+					af, err := parser.ParseFile(token.NewFileSet(), pf, nil, 0)
+					if err != nil {
+						continue
+					}
+					for _, d := range af.Decls {
+						gd, ok := d.(*ast.GenDecl)
+						if !ok || gd.Tok != token.TYPE {
+							continue
+						}
+						for _, sp := range gd.Specs {
+							ts := sp.(*ast.TypeSpec)
+							st, ok := ts.Type.(*ast.StructType)
+							if !ok {
+								continue
+							}
+							fm := map[string]string{}
+							for _, fl := range st.Fields.List {
+								var tn string
+								switch ft := fl.Type.(type) {
+								case *ast.Ident:
+									tn = ft.Name
+								case *ast.SelectorExpr:
+									if pk, ok := ft.X.(*ast.Ident); ok {
+										tn = pk.Name + "." + ft.Sel.Name
+									}
+								}
+								if tn == "" {
+									continue
+								}
+								for _, n := range fl.Names {
+									fm[n.Name] = tn
+								}
+							}
+							t.structs[ts.Name.Name] = fm
+						}
+					}
+				}
+			}
+			// package-level untyped integer constants of the same file (literal values only)
 			for _, d := range file.Decls {
 				gd, ok := d.(*ast.GenDecl)
 				if !ok || gd.Tok != token.CONST {
@@ -531,265 +637,178 @@ func main() {
 				}
 				for _, sp := range gd.Specs {
 					vs := sp.(*ast.ValueSpec)
-					if len(vs.Names) != 1 || vs.Names[0].Name != tg.Const || len(vs.Values) != 1 {
+					if vs.Type != nil || len(vs.Names) != 1 || len(vs.Values) != 1 {
 						continue
 					}
-					lit, ok := vs.Values[0].(*ast.BasicLit)
-					if !ok || lit.Kind != token.INT {
-						fail("constant %s is not an integer literal", tg.Const)
-					}
-					gt := tg.Type
-					if vs.Type != nil {
-						gt = typeName(vs.Type)
-					}
-					sb.WriteString(fmt.Sprintf("/-- `%s` `const %s` (line %d). -/\n", tg.File, tg.Const, fset.Position(vs.Pos()).Line))
-					sb.WriteString(fmt.Sprintf("def %s : %s := %s\n\n", tg.Lean, leanType(gt), strings.ReplaceAll(lit.Value, "_", "")))
-					found = true
-				}
-			}
-			if !found {
-				fail("constant %s not found in %s", tg.Const, tg.File)
-			}
-			continue
-		}
-		var fd *ast.FuncDecl
-		for _, d := range file.Decls {
-			f, ok := d.(*ast.FuncDecl)
-			if !ok || f.Name.Name != tg.Func {
-				continue
-			}
-			recv := ""
-			if f.Recv != nil && len(f.Recv.List) == 1 {
-				recv = strings.TrimPrefix(typeName(f.Recv.List[0].Type), "*")
-			}
-			if recv == tg.Recv {
-				fd = f
-			}
-		}
-		if fd == nil {
-			fail("function %s.%s not found in %s", tg.Recv, tg.Func, tg.File)
-		}
-		t := &tr{env: map[string]string{}, leanOf: leanOf, consts: map[string]string{}, structVars: map[string]string{}, structs: map[string]map[string]string{}}
-		// struct types of the package (all non-test files of the directory): plain named fields only
-		if pkgFiles, err := filepath.Glob(filepath.Join(repo, filepath.Dir(tg.File), "*.go")); err == nil {
-			for _, pf := range pkgFiles {
-				if strings.HasSuffix(pf, "_test.go") {
-					continue
-				}
-				af, err := parser.ParseFile(token.NewFileSet(), pf, nil, 0)
-				if err != nil {
-					continue
-				}
-				for _, d := range af.Decls {
-					gd, ok := d.(*ast.GenDecl)
-					if !ok || gd.Tok != token.TYPE {
-						continue
-					}
-					for _, sp := range gd.Specs {
-						ts := sp.(*ast.TypeSpec)
-						st, ok := ts.Type.(*ast.StructType)
-						if !ok {
-							continue
-						}
-						fm := map[string]string{}
-						for _, fl := range st.Fields.List {
-							var tn string
-							switch ft := fl.Type.(type) {
-							case *ast.Ident:
-								tn = ft.Name
-							case *ast.SelectorExpr:
-								if pk, ok := ft.X.(*ast.Ident); ok {
-									tn = pk.Name + "." + ft.Sel.Name
-								}
-							}
-							if tn == "" {
-								continue
-							}
-							for _, n := range fl.Names {
-								fm[n.Name] = tn
-							}
-						}
-						t.structs[ts.Name.Name] = fm
+					if lit, ok := vs.Values[0].(*ast.BasicLit); ok && lit.Kind == token.INT {
+						t.consts[vs.Names[0].Name] = lit.Value
 					}
 				}
 			}
-		}
-		// package-level untyped integer constants of the same file (literal values only)
-		for _, d := range file.Decls {
-			gd, ok := d.(*ast.GenDecl)
-			if !ok || gd.Tok != token.CONST {
-				continue
-			}
-			for _, sp := range gd.Specs {
-				vs := sp.(*ast.ValueSpec)
-				if vs.Type != nil || len(vs.Names) != 1 || len(vs.Values) != 1 {
-					continue
-				}
-				if lit, ok := vs.Values[0].(*ast.BasicLit); ok && lit.Kind == token.INT {
-					t.consts[vs.Names[0].Name] = lit.Value
-				}
-			}
-		}
-		var params []string
-		if tg.Cond != nil || tg.Assign != "" || tg.Call != "" || tg.Ret {
-			t.freeVars = tg.Vars
-			if fd.Recv != nil && len(fd.Recv.List[0].Names) == 1 {
-				rt := strings.TrimPrefix(typeName(fd.Recv.List[0].Type), "*")
-				if _, isStruct := t.structs[rt]; isStruct {
-					t.structVars[fd.Recv.List[0].Names[0].Name] = rt
-				}
-			}
-			var e ast.Expr
-			want, what := "", ""
-			if tg.Cond != nil {
-				k := 0
-				ast.Inspect(fd.Body, func(n ast.Node) bool {
-					if is, ok := n.(*ast.IfStmt); ok {
-						if k == *tg.Cond {
-							e = is.Cond
-						}
-						k++
+			var params []string
+			if tg.Cond != nil || tg.Assign != "" || tg.Call != "" || tg.Ret {
+				t.freeVars = tg.Vars
+				if fd.Recv != nil && len(fd.Recv.List[0].Names) == 1 {
+					rt := strings.TrimPrefix(typeName(fd.Recv.List[0].Type), "*")
+					if _, isStruct := t.structs[rt]; isStruct {
+						t.structVars[fd.Recv.List[0].Names[0].Name] = rt
 					}
-					return true
-				})
-				want, what = "Bool", fmt.Sprintf("condition of if #%d", *tg.Cond)
-			} else if tg.Call != "" {
-				k := 0
-				ast.Inspect(fd.Body, func(n ast.Node) bool {
-					if ce, ok := n.(*ast.CallExpr); ok {
-						name := ""
-						switch fn := ce.Fun.(type) {
-						case *ast.Ident:
-							name = fn.Name
-						case *ast.SelectorExpr:
-							name = fn.Sel.Name
-						}
-						if name == tg.Call && len(ce.Args) > tg.Arg {
-							if k == tg.Nth {
-								e = ce.Args[tg.Arg]
+				}
+				var e ast.Expr
+				want, what := "", ""
+				if tg.Cond != nil {
+					k := 0
+					ast.Inspect(fd.Body, func(n ast.Node) bool {
+						if is, ok := n.(*ast.IfStmt); ok {
+							if k == *tg.Cond {
+								e = is.Cond
 							}
 							k++
 						}
-					}
-					return true
-				})
-				if gt, ok := tg.Vars["$result"]; ok {
-					want = leanType(gt)
-				}
-				what = fmt.Sprintf("argument %d of call #%d of %s", tg.Arg, tg.Nth, tg.Call)
-			} else if tg.Ret {
-				k := 0
-				ast.Inspect(fd.Body, func(n ast.Node) bool {
-					if _, isLit := n.(*ast.FuncLit); isLit {
-						return false
-					}
-					if rs, ok := n.(*ast.ReturnStmt); ok && len(rs.Results) > tg.Res {
-						if k == tg.Nth {
-							e = rs.Results[tg.Res]
+						return true
+					})
+					want, what = "Bool", fmt.Sprintf("condition of if #%d", *tg.Cond)
+				} else if tg.Call != "" {
+					k := 0
+					ast.Inspect(fd.Body, func(n ast.Node) bool {
+						if ce, ok := n.(*ast.CallExpr); ok {
+							name := ""
+							switch fn := ce.Fun.(type) {
+							case *ast.Ident:
+								name = fn.Name
+							case *ast.SelectorExpr:
+								name = fn.Sel.Name
+							}
+							if name == tg.Call && len(ce.Args) > tg.Arg {
+								if k == tg.Nth {
+									e = ce.Args[tg.Arg]
+								}
+								k++
+							}
 						}
-						k++
+						return true
+					})
+					if gt, ok := tg.Vars["$result"]; ok {
+						want = leanType(gt)
 					}
-					return true
-				})
-				if gt, ok := tg.Vars["$result"]; ok {
-					want = leanType(gt)
-				}
-				what = fmt.Sprintf("result %d of return #%d", tg.Res, tg.Nth)
-			} else {
-				k := 0
-				ast.Inspect(fd.Body, func(n ast.Node) bool {
-					if as, ok := n.(*ast.AssignStmt); ok && len(as.Lhs) == 1 && len(as.Rhs) == 1 && selText(as.Lhs[0]) == tg.Assign &&
-						(as.Tok == token.ASSIGN || as.Tok == token.DEFINE) {
-						if k == tg.Nth {
-							e = as.Rhs[0]
+					what = fmt.Sprintf("argument %d of call #%d of %s", tg.Arg, tg.Nth, tg.Call)
+				} else if tg.Ret {
+					k := 0
+					ast.Inspect(fd.Body, func(n ast.Node) bool {
+						if _, isLit := n.(*ast.FuncLit); isLit {
+							return false
 						}
-						k++
+						if rs, ok := n.(*ast.ReturnStmt); ok && len(rs.Results) > tg.Res {
+							if k == tg.Nth {
+								e = rs.Results[tg.Res]
+							}
+							k++
+						}
+						return true
+					})
+					if gt, ok := tg.Vars["$result"]; ok {
+						want = leanType(gt)
 					}
-					return true
-				})
-				if gt, ok := tg.Vars[tg.Assign]; ok {
-					want = leanType(gt)
+					what = fmt.Sprintf("result %d of return #%d", tg.Res, tg.Nth)
+				} else {
+					k := 0
+					ast.Inspect(fd.Body, func(n ast.Node) bool {
+						if as, ok := n.(*ast.AssignStmt); ok && len(as.Lhs) == 1 && len(as.Rhs) == 1 && selText(as.Lhs[0]) == tg.Assign &&
+							(as.Tok == token.ASSIGN || as.Tok == token.DEFINE) {
+							if k == tg.Nth {
+								e = as.Rhs[0]
+							}
+							k++
+						}
+						return true
+					})
+					if gt, ok := tg.Vars[tg.Assign]; ok {
+						want = leanType(gt)
+					}
+					what = fmt.Sprintf("right-hand side of assignment #%d to %s", tg.Nth, tg.Assign)
 				}
-				what = fmt.Sprintf("right-hand side of assignment #%d to %s", tg.Nth, tg.Assign)
+				if e == nil {
+					fail("%s not found in %s", what, tg.Func)
+				}
+				v, ty := t.expr(e, want)
+				start, end := fset.Position(e.Pos()), fset.Position(e.End())
+				sb.WriteString(fmt.Sprintf("/-- `%s` `%s%s`: %s (line %d, text `%s`). -/\n", tg.File,
+					map[bool]string{true: tg.Recv + ".", false: ""}[tg.Recv != ""], tg.Func, what, start.Line,
+					strings.Join(strings.Fields(string(src[start.Offset:end.Offset])), " ")))
+				sb.WriteString(fmt.Sprintf("def %s %s : %s :=\n  %s\n\n", tg.Lean, strings.Join(t.fieldParams, " "), ty, v))
+				return
 			}
-			if e == nil {
-				fail("%s not found in %s", what, tg.Func)
+			if fd.Recv != nil {
+				r := fd.Recv.List[0]
+				rt := typeName(r.Type)
+				t.recv = r.Names[0].Name
+				if strings.HasPrefix(rt, "*") {
+					t.ptrRecv = true
+					rt = rt[1:]
+				}
+				if _, isStruct := t.structs[rt]; isStruct {
+					t.structVars[t.recv] = rt
+					t.ptrRecv = false // fields of the receiver are only read (an assignment fails in lhsName)
+				} else {
+					lt := leanType(rt)
+					t.env[t.recv] = lt
+					params = append(params, fmt.Sprintf("(%s : %s)", t.recv+"0", lt))
+				}
 			}
-			v, ty := t.expr(e, want)
-			start, end := fset.Position(e.Pos()), fset.Position(e.End())
-			sb.WriteString(fmt.Sprintf("/-- `%s` `%s%s`: %s (line %d, text `%s`). -/\n", tg.File,
-				map[bool]string{true: tg.Recv + ".", false: ""}[tg.Recv != ""], tg.Func, what, start.Line,
-				strings.Join(strings.Fields(string(src[start.Offset:end.Offset])), " ")))
-			sb.WriteString(fmt.Sprintf("def %s %s : %s :=\n  %s\n\n", tg.Lean, strings.Join(t.fieldParams, " "), ty, v))
-			continue
-		}
-		if fd.Recv != nil {
-			r := fd.Recv.List[0]
-			rt := typeName(r.Type)
-			t.recv = r.Names[0].Name
-			if strings.HasPrefix(rt, "*") {
-				t.ptrRecv = true
-				rt = rt[1:]
-			}
-			if _, isStruct := t.structs[rt]; isStruct {
-				t.structVars[t.recv] = rt
-				t.ptrRecv = false // fields of the receiver are only read (an assignment fails in lhsName)
-			} else {
-				lt := leanType(rt)
-				t.env[t.recv] = lt
-				params = append(params, fmt.Sprintf("(%s : %s)", t.recv+"0", lt))
-			}
-		}
-		for _, p := range fd.Type.Params.List {
-			pt := strings.TrimPrefix(typeName(p.Type), "*")
-			if _, isStruct := t.structs[pt]; isStruct {
+			for _, p := range fd.Type.Params.List {
+				pt := strings.TrimPrefix(typeName(p.Type), "*")
+				if _, isStruct := t.structs[pt]; isStruct {
+					for _, n := range p.Names {
+						t.structVars[n.Name] = pt
+					}
+					continue
+				}
+				lt := leanType(typeName(p.Type))
 				for _, n := range p.Names {
-					t.structVars[n.Name] = pt
-				}
-				continue
-			}
-			lt := leanType(typeName(p.Type))
-			for _, n := range p.Names {
-				t.env[n.Name] = lt
-				params = append(params, fmt.Sprintf("(%s : %s)", n.Name+"0", lt))
-			}
-		}
-		switch {
-		case fd.Type.Results != nil && len(fd.Type.Results.List) == 1:
-			t.retType = leanType(typeName(fd.Type.Results.List[0].Type))
-		case t.ptrRecv:
-			t.retType = t.env[t.recv]
-		default:
-			fail("result arity of %s", tg.Func)
-		}
-		var body []string
-		// parameters are mutable locals in Go
-		names := []string{}
-		if fd.Recv != nil && t.structVars[t.recv] == "" {
-			names = append(names, t.recv)
-		}
-		for _, p := range fd.Type.Params.List {
-			for _, n := range p.Names {
-				if t.structVars[n.Name] == "" {
-					names = append(names, n.Name)
+					t.env[n.Name] = lt
+					params = append(params, fmt.Sprintf("(%s : %s)", n.Name+"0", lt))
 				}
 			}
-		}
-		for _, n := range names {
-			body = append(body, fmt.Sprintf("  let mut %s : %s := %s0", n, t.env[n], n))
-		}
-		t.stmts(fd.Body.List, "  ", &body)
-		if t.ptrRecv {
-			body = append(body, "  return "+t.recv)
-		}
-		start, end := fset.Position(fd.Pos()), fset.Position(fd.End())
-		h := sha256.Sum256(src[start.Offset:end.Offset])
-		sb.WriteString(fmt.Sprintf("/-- `%s` `%s%s` (lines %d-%d, sha256 of the function text %x). -/\n", tg.File,
-			map[bool]string{true: tg.Recv + ".", false: ""}[tg.Recv != ""], tg.Func, start.Line, end.Line, h[:6]))
-		params = append(params, t.fieldParams...)
-		sb.WriteString(fmt.Sprintf("def %s %s : %s := Id.run do\n", tg.Lean, strings.Join(params, " "), t.retType))
-		sb.WriteString(strings.Join(body, "\n"))
-		sb.WriteString("\n\n")
+			switch {
+			case fd.Type.Results != nil && len(fd.Type.Results.List) == 1:
+				t.retType = leanType(typeName(fd.Type.Results.List[0].Type))
+			case t.ptrRecv:
+				t.retType = t.env[t.recv]
+			default:
+				fail("result arity of %s", tg.Func)
+			}
+			var body []string
+			// parameters are mutable locals in Go
+			names := []string{}
+			if fd.Recv != nil && t.structVars[t.recv] == "" {
+				names = append(names, t.recv)
+			}
+			for _, p := range fd.Type.Params.List {
+				for _, n := range p.Names {
+					if t.structVars[n.Name] == "" {
+						names = append(names, n.Name)
+					}
+				}
+			}
+			for _, n := range names {
+				body = append(body, fmt.Sprintf("  let mut %s : %s := %s0", n, t.env[n], n))
+			}
+			t.stmts(fd.Body.List, "  ", &body)
+			if t.ptrRecv {
+				body = append(body, "  return "+t.recv)
+			}
+			start, end := fset.Position(fd.Pos()), fset.Position(fd.End())
+			h := sha256.Sum256(src[start.Offset:end.Offset])
+			sb.WriteString(fmt.Sprintf("/-- `%s` `%s%s` (lines %d-%d, sha256 of the function text %x). -/\n", tg.File,
+				map[bool]string{true: tg.Recv + ".", false: ""}[tg.Recv != ""], tg.Func, start.Line, end.Line, h[:6]))
+			params = append(params, t.fieldParams...)
+			sb.WriteString(fmt.Sprintf("def %s %s : %s := Id.run do\n", tg.Lean, strings.Join(params, " "), t.retType))
+			sb.WriteString(strings.Join(body, "\n"))
+			sb.WriteString("\n\n")
+		}()
+	}
+	if failed > 0 {
+		fmt.Fprintf(os.Stderr, "gen: %d target(s) not translated; their definitions are missing from the output\n", failed)
 	}
 	sb.WriteString("end Juno.Generated\n")
 	if err := os.MkdirAll(filepath.Dir(outPath), 0o755); err != nil {
